@@ -461,6 +461,8 @@ Spans of submodels differ:
             **kwargs,
         )
 
+        iteration = 0
+
         for iteration in range(1, max_iter + 1):
             previous_values = copy.deepcopy(current_values)
 
